@@ -20,6 +20,11 @@ ASSUMPTIONS = [
 ]
 
 F_MAX = 1e5
+
+
+def _scales():
+    # octave origins down to 1e-14 Hz: any positive low_hz is a valid parameter
+    return scale_specs(octave_low_min_exp=-14)
 BARK_BREAKS_HZ = [1960.0 * 2.53 / 24.28, 1960.0 * 20.63 / 6.18]
 
 
@@ -214,7 +219,7 @@ def check_params(case):
 
 
 def clauses(tier):
-    spec_f = lambda: st.fixed_dictionaries({"scale": scale_specs(), "f": _freqs()})  # noqa
+    spec_f = lambda: st.fixed_dictionaries({"scale": _scales(), "f": _freqs()})  # noqa
     return [
         Clause(
             "roundtrip_hz", check_roundtrip_hz,
@@ -225,7 +230,7 @@ def clauses(tier):
             "roundtrip_scale", check_roundtrip_scale,
             "scale value s = s(lo) + u (s(1e5) - s(lo)) or within 1e-15..1e-2 of a Bark break; non-trivial = interior point",
             lambda: st.one_of(
-                st.fixed_dictionaries({"scale": scale_specs(), "u": floats(0.0, 1.0)}),
+                st.fixed_dictionaries({"scale": _scales(), "u": floats(0.0, 1.0)}),
                 st.fixed_dictionaries(
                     {
                         "scale": st.just({"alias": "bark"}),
@@ -244,7 +249,7 @@ def clauses(tier):
         Clause(
             "monotone", check_monotone,
             "ordered pair f1 < f2 = f1 + gap (relative gap 1e-9..1e-1); every pair is non-trivial",
-            lambda: st.fixed_dictionaries({"scale": scale_specs(), "f": _freqs(), "gap": log_uniform(-9, -1)}),
+            lambda: st.fixed_dictionaries({"scale": _scales(), "f": _freqs(), "gap": log_uniform(-9, -1)}),
             quick=5000, thorough=300000,
         ),
         Clause(
@@ -252,7 +257,7 @@ def clauses(tier):
             "points f(1-eps), f(1+eps), eps 1e-13..1e-4, weighted to the Bark break-points; non-trivial = pair straddles a break (or non-Bark scale)",
             lambda: st.fixed_dictionaries(
                 {
-                    "scale": st.one_of(st.just({"alias": "bark"}), scale_specs()),
+                    "scale": st.one_of(st.just({"alias": "bark"}), _scales()),
                     "f": st.one_of(st.sampled_from(BARK_BREAKS_HZ), _freqs()),
                     "eps": log_uniform(-13, -4),
                 }
